@@ -42,6 +42,17 @@ Source translation (`pre_gate`, before the Lean gate): `py2lean_dist.py` execute
     source or those proofs stop checking, that is a gate problem naming the broken equality; the suites below then
     supply the failing input (tried: `.sum` dropped for Box, sign of the squash correction, swapped `torch.where`
     branches, `is` → `is not`, clamp / rescale constants, `exp(0.5 * log_std)` — each gives oracle violations with replays).
+    `py2lean_ppoglue.py` does the same for the glue between rollout and update — `PPO.{_get_action_and_values,
+    evaluate_actions, get_action}`, the minibatch statements of `PPO.learn` (squeeze / unsqueeze, `logratio`, `ratio`,
+    the entropy term), the per-group body of `IPPO.get_action` and the minibatch statements of `IPPO._learn_individual`
+    (`lean/Gen/PpoGlueGen.lean`, `Proofs/PpoGlueGenEq.lean`, `C16_source_translation_glue_*`).  Its suite
+    (`run_glue`, "glue-first-minibatch"): get_action in training mode -> a one-step rollout of B environments -> learn
+    with batch_size B; the first minibatch must hand the stored actions to `action_log_prob` with their action dimension
+    and re-compute the stored log-probs (ratio = 1), for every space kind, B in {1, 2, 5} (B = 1: the minibatch is
+    skipped, as coded), squash on / off incl. non-unit bounds; with masks (`glue_mask_probes`) the mismatch is the open
+    finding `C16-ppo-reevaluation-ignores-mask`.  Tried: unsqueeze block deleted, `not self.training and` deleted (the
+    clipped / scaled action stored) — gate problem naming `gen_ppo_learn_minibatch_eq` / `gen_ppo_get_action_eq` plus
+    oracle violations with replays.
 """
 from __future__ import annotations
 
@@ -1850,9 +1861,15 @@ def pre_gate(chk: Check) -> None:
     `generated = model` (Proofs/DistGenEq.lean) and the theorems over the generated definitions (Props/C16.lean)."""
     import common
     import py2lean_dist
+    import py2lean_ppoglue
+    # both generated files are imported by Props/C16.lean: bring the second one up to date with the tree under test
+    # before the first gate builds that module (its own gate below reports a rejected source)
+    try:
+        py2lean_ppoglue.write_if_changed(py2lean_ppoglue.translate(common.REPO)[0], common.LEAN_DIR / "Gen" / "PpoGlueGen.lean")
+    except py2lean_ppoglue.Unsupported:
+        pass
     common.translation_gate(chk, py2lean_dist, "Gen/DistGen.lean", ["Gen.DistGen", "Proofs.DistGenEq", "Props.C16"],
                             "log-prob / entropy / masking / squashing formulas of distributions.py and StochasticActor")
-    import py2lean_ppoglue
     common.translation_gate(chk, py2lean_ppoglue, "Gen/PpoGlueGen.lean", ["Gen.PpoGlueGen", "Proofs.PpoGlueGenEq", "Props.C16"],
                             "PPO / IPPO glue: which action, mask and log-prob travel from get_action through learn into the actor")
 
@@ -2098,6 +2115,31 @@ def selftest(chk: Check) -> None:
                     p_.mul_(0.5)
     faults.append(("action_std_init changes a policy that has no log-std (only the twin comparison can see it)", D.EvolvableDistribution,
                    "__init__", std_init_leaks, inert_cases({"std_init": 1.0})))
+
+    # 8. / 9. the PPO glue: the action stored next to a log-prob, and the action dimension on the way back into the actor
+    from agilerl.algorithms.ppo import PPO as _PPO
+    orig_ga, orig_ev = _PPO.get_action, _PPO.evaluate_actions
+
+    def clipped_store(self, obs, action_mask=None):
+        a, lp, e, v = orig_ga(self, obs, action_mask)
+        if isinstance(self.action_space, spaces.Box):
+            a = np.clip(a, -0.25, 0.25)
+        return a, lp, e, v
+
+    def glue_box_cases():
+        return [{"suite": "glue", "spec": {"kind": "box", "d": 2}, "rows": [[i, None] for i in range(5)], "seed": 51, "scale": 2.0,
+                 "std_init": 0.0, "squash": False}]
+    faults.append(("PPO.get_action (training mode) returns a clipped action next to the log-prob of the unclipped one", _PPO, "get_action",
+                   clipped_store, glue_box_cases))
+
+    def squeezed_eval(self, obs, actions):
+        return orig_ev(self, obs, actions.squeeze())
+
+    def glue_onedim_cases():
+        return [{"suite": "glue", "spec": {"kind": "multibinary", "n": 1}, "rows": [[i, None] for i in range(3)], "seed": 52, "scale": 4.0,
+                 "std_init": 0.0, "squash": False}]
+    faults.append(("one-dimensional actions reach action_log_prob without their action dimension", _PPO, "evaluate_actions",
+                   squeezed_eval, glue_onedim_cases))
 
     for name, owner, attr, repl, mk in faults:
         orig = getattr(owner, attr)
